@@ -44,7 +44,7 @@ func c02(x *Ctx) {
 				"a span is handed to the upstream transmission from "+FName(f)+", outside the three functions that apply a recorded decision: it is forwarded regardless of (or in addition to) the trace's decision")
 		})
 	}
-	c.Min(rWho, 4)
+	c.Min(rWho, 3)
 	const rChan = "C02.send-channel-discipline"
 	tts := eng.FieldIs("collect", "InMemCollector", "tracesToSend")
 	for _, op := range chanOps(funcs, tts) {
